@@ -19,7 +19,7 @@ THEOREMS = ["Drand.Net." + t for t in [
     ["Drand.Net.Reshare." + t for t in ['sane_run', 'sane_init', 'c07_quiet_of_reachable', 'c07_told_is_punctual', 'c07_quiet_counterexample', 'c07_quiet_of_healthy',
                                         'c07_level', 'c07_fair_tick', 'c07_fair_round', 'c07_catch_progress', 'c07_chain_continues', 'c07_round_produced',
                                         'c07_no_skip', 'c07_heads_monotone',
-                                        'c07_quiet_of_sound', 'c07_fair_tick_repaired', 'c07_chain_continues_repaired', 'cx_sound']]
+                                        'c07_quiet_of_reachable_repaired', 'replace_apply', 'c07_quiet_of_sound', 'c07_fair_tick_repaired', 'c07_chain_continues_repaired', 'cx_sound']]
 TRUSTED = ["Lean 4 kernel; axioms per theorem under coverage.axioms",
            "go2lean netrules extractor: the round arithmetic and guards of broadcastNextPartial, Handler.run, Catchup, ProcessPartialBeacon, "
            "runAggregator, tryAppend, shouldSync, SyncManager.Run/tryNode are regenerated into Gen.NetRules and USED by the model; "
